@@ -201,7 +201,21 @@ func RunCheck(cfg CheckConfig) int {
 		pkg := pkgOfHarness(hd.Name)
 		fn := P.Harness("grits/"+pkg, hd.Name[len(pkg)+1:])
 		if fn == nil {
-			problems = append(problems, "harness not found: "+hd.Name)
+			why := "harness not found: " + hd.Name
+			for _, b := range P.BrokenHarness {
+				if strings.HasPrefix(b, pkg+":") {
+					why = "harness " + hd.Name + " does not compile against the current tree (" + b + ")"
+				}
+			}
+			dup := false
+			for _, p := range problems {
+				if p == why {
+					dup = true
+				}
+			}
+			if !dup {
+				problems = append(problems, why)
+			}
 			continue
 		}
 		params := map[string]int{}
